@@ -17,6 +17,9 @@ C11   cases = (n, hidden game, start knowledge ⊇ minimal, size limit k, comput
       coalitions of size ≤ k exactly once and sizes non-decreasing; value = fresh gap; equal for all
       process counts; `MetaGame.get_value` = the same quantity; `get_best_exploitability` per size =
       minimum mean (first on ties) attained by the reported set, curve non-increasing for in-class games.
+      Best-states / sampled search run on the same replayable games from two legal `GameGenerator`s: a new
+      game object per call (`ListGen`) and ONE buffer object refilled in place and returned every time
+      (`BufferGen`) — row j must be the gaps of the j-th DRAWN game whatever the identity of the object.
       Non-trivial = hidden game not symmetric under any transposition of players, ≥ 3 distinct gaps among
       the enumerated sets; distinct by (game, start, k, computer, gap).
 C12   real `evaluate()`; environments from the real `ModelInstance.get_env` (seeded) and from
@@ -28,13 +31,23 @@ C12   real `evaluate()`; environments from the real `ModelInstance.get_env` (see
       generator ⇒ pairwise different hidden games).  Keys: `evaluate:shared-generator-rng` when the
       hidden games of a real-ModelInstance run repeat or depend on the process count;
       `evaluate:random-solver-shared-rng` when only the random solver's actions depend on the process
-      count while the hidden games agree.
+      count while the hidden games agree; `evaluate:unseeded-module-generator` for the `graph` /
+      `graph_<distribution>` weight-matrix family only (first repetition of every forked worker replays);
+      `evaluate:seed-not-respected` when a second same-seed run (fresh ModelInstance, 1 process) sees other
+      hidden games, and for every seed/replay finding of the seed-respecting random-graph generators
+      graph_random / graph_ws_connected (n = 5, deterministic solvers: rerun, 1 vs 2 processes, two
+      workers replaying one another's sequence of hidden games position by position on ≥ 3 repetitions).
       Non-trivial = run with ≥ 2 repetitions, ≥ 2 steps and ≥ 2 distinct recorded gaps; distinct by
       (generator, seed, solver, repetitions, limit, process count).
 C13greedy  real `get_greedy_rewards` on a replayable generator; oracles: never repeats, every extension
       minimises the mean fresh gap among the remaining candidates, rows = fresh gaps of the chosen
       prefix, curve non-increasing (in-class games), ≥ the `get_best_exploitability` curve on the SAME
-      games, equal at 0 and 1 reveals.  Non-trivial = ≥ 2 steps and ≥ 3 distinct candidate means in some
+      games, equal at 0 and 1 reveals.  Besides ordinary games: games scaled by an exact power of two
+      (2^-27 … 2^-40, every float operation commutes with the scaling) and near-tie games (m·|S|² plus a
+      2^-22-sized superadditive perturbation); the per-step arg-min oracle is evaluated twice, on the float
+      means and on the exact Fraction means of the real gaps (no tolerance; the exact form is skipped only
+      where float and exact means order the candidates differently).
+      Non-trivial = ≥ 2 steps and ≥ 3 distinct candidate means in some
       step; distinct by (games, computer, gap, repetitions, steps).
 """
 from __future__ import annotations
@@ -984,8 +997,14 @@ def run_c13(tier, budget, rnd) -> StreamResult:
     combos = [("superadditive", "exploitability"), ("superadditive_cached", "l1_norm"),
               ("superadditive_cached", "linf_norm"), ("sam_apx_1", "l2_norm")]
     shapes = [(3, 3, 1), (3, 2, 2), (4, 2, 4), (4, 3, 2), (3, 4, 2), (4, 4, 1), (3, 0, 2), (4, 1, 2)]
-    cases = shapes * 2 if quick else shapes * 6
-    for ci, (n, steps, reps) in enumerate(cases):
+    cases = [c + ("plain",) for c in (shapes * 2 if quick else shapes * 6)]
+    # tiny-magnitude games (an ordinary hidden game times an exact power of two: every float operation of the bound
+    # computers / gap functions / means commutes with the scaling, so the selection stays decidable) and near-tie
+    # games (all candidates of a size tie in the main term; a 2^-22-sized superadditive perturbation separates them)
+    special = [(4, 2, 2, "scaled"), (3, 3, 2, "scaled"), (4, 3, 1, "scaled"), (4, 2, 3, "scaled"),
+               (4, 2, 2, "near-tie"), (3, 4, 2, "near-tie"), (4, 3, 2, "near-tie"), (4, 2, 1, "near-tie")]
+    cases += special if quick else special * 4
+    for ci, (n, steps, reps, variant) in enumerate(cases):
         if not budget.ok():
             res.notes.append("budget exhausted")
             break
@@ -997,11 +1016,24 @@ def run_c13(tier, budget, rnd) -> StreamResult:
         pool_games = [g for g in hidden_games(n, rnd, tier) + hidden_games(n, rnd, tier) if g[2] or ci % 4 == 3]
         chosen = [pool_games[i] for i in rnd.sample(range(len(pool_games)), reps + 2)]
         tables = [g[1] for g in chosen]
-        sampled = tables[2:2 + reps]
         in_class = all(g[2] for g in chosen[2:]) and cls != "sam_apx_1"
+        if variant == "scaled":
+            sc = 2.0 ** -rnd.choice([27, 27, 34, 40])
+            tables = [[x * sc for x in t] for t in tables]
+        elif variant == "near-tie":
+            tables = []
+            for _ in range(reps + 2):
+                main, pert = G.convex_power_game(n, 2), G.sa_game(n, rnd, "int")
+                m = rnd.choice([1, 2, 3])
+                tables.append([float(m * a + b / 2 ** 22) for a, b in zip(main, pert)])
+            in_class = cls != "sam_apx_1"
+        sampled = tables[2:2 + reps]
         fresh = Fresh(n, cls, gapname)
         ctx = {"n": n, "max_steps": steps, "repetitions": reps, "processes": procs, "computer": cls, "gap": gapname,
                "sampled_games": sampled}
+        if variant != "plain":
+            ctx["games"] = variant
+        res.count(f"greedy:games:{variant}")
         env = ICG_Gym(ICG(n, BOUNDS[cls]), ListGen(n, tables), minimal_game_coalitions(n), fresh.gapf, done_after_n_actions=steps)
         gt = f"g{ci}"
         in_domain = steps <= len(explorable)
@@ -1094,6 +1126,24 @@ def run_c13(tier, budget, rnd) -> StreamResult:
                     res.violation("expected-greedy extension does not minimise the mean gap among the remaining candidates",
                                   dict(c2, step=i, candidate_means=ms), key="greedy:argmin")
                     ok = False
+                    continue
+                # the same statement with the exact means of the real (float) gaps — no tolerance of any size, so it also
+                # decides tiny-magnitude games and near-ties; decidable whenever the float means the code compares order the
+                # candidates like the exact means do
+                cols_i = {c: col(acts[:i] + [c]) for c in rem}
+                ex = {c: sum((Fraction(x) for x in cols_i[c]), Fraction(0)) / reps for c in rem}
+                mn = min(ex.values())
+                if any(0 < v - mn < Fraction(1, 10 ** 6) for v in ex.values()):
+                    res.count("greedy:step-with-distinct-means-within-1e-6-of-min")
+                if not order_consistent(list(cols_i.values())):
+                    res.count("greedy:step-float-near-tie")
+                elif ex[acts[i]] != mn:
+                    best = min(rem, key=lambda c: ex[c])
+                    res.violation("expected-greedy extension does not minimise the (exact) mean gap among the remaining candidates",
+                                  dict(c2, step=i, chosen=acts[i], chosen_mean=float(ex[acts[i]]), minimiser=best,
+                                       minimum_mean=float(mn), excess_relative=float((ex[acts[i]] - mn) / mn) if mn else None,
+                                       candidate_means={c: float(v) for c, v in ex.items()}), key="greedy:argmin")
+                    ok = False
             curve = [float(np.mean(np.array(r))) for r in rows]
             if ok and in_class and any(b > a + TOL * max(1.0, abs(a)) for a, b in zip(curve, curve[1:])):
                 res.violation("expected-greedy curve increases on in-class games", dict(c2, curve=curve), key="greedy:mono")
@@ -1113,6 +1163,10 @@ def run_c13(tier, budget, rnd) -> StreamResult:
                                       dict(c2, greedy_curve=curve, best_curve=bcurve, best_sets=bacts), key="greedy:below-optimum")
                     elif any(abs(curve[i] - bcurve[i]) > 1e-12 * max(1.0, abs(bcurve[i])) for i in range(min(2, steps + 1))):
                         res.violation("expected-greedy differs from the exhaustive optimum at 0 or 1 reveals",
+                                      dict(c2, greedy_curve=curve, best_curve=bcurve, best_sets=bacts), key="greedy:optimum-0-1")
+                    elif variant != "plain" and any(abs(curve[i] - bcurve[i]) > 1e-12 * abs(bcurve[i]) for i in range(min(2, steps + 1))):
+                        # magnitude-free form of the same statement (the 1.0 floor above is void for tiny games)
+                        res.violation("expected-greedy differs from the exhaustive optimum at 0 or 1 reveals (relative)",
                                       dict(c2, greedy_curve=curve, best_curve=bcurve, best_sets=bacts), key="greedy:optimum-0-1")
             except Exception as e:
                 res.violation(f"get_best_exploitability raised {type(e).__name__} on an in-domain call", ctx, key="best:raised")
@@ -1140,7 +1194,8 @@ def replay(prop: str, payload: dict):
     tmp = tempfile.mkdtemp(prefix="verif_c12_")
     path = os.path.join(tmp, "cap.jsonl")
     seen = {}
-    for p in procs:
+    rerun = None          # a second same-seed run with the first process count (same seed ⇒ same run)
+    for p in list(dict.fromkeys(procs)) + [procs[0]]:
         inst = ModelInstance(number_of_players=inp["n"], game_class=inp["game_class"], game_generator=inp["game_generator"],
                              gap_function=inp["gap_function"], run_steps_limit=inp["run_steps_limit"], seed=inp["seed"])
         cnt = [0]
@@ -1156,7 +1211,10 @@ def replay(prop: str, payload: dict):
             e, a = evaluate(solver.next_step, env_gen, inp["repetitions"], inp["run_steps_limit"], inst.gap_function_callable,
                             p, Capture(path))
         hidden = {r[0]: tuple(r[2]) for r in _read_capture(path)}
-        seen[p] = (np.array(e), np.array(a), [hidden.get(j) for j in range(inp["repetitions"])])
+        if p in seen:
+            rerun = (np.array(e), np.array(a), [hidden.get(j) for j in range(inp["repetitions"])])
+        else:
+            seen[p] = (np.array(e), np.array(a), [hidden.get(j) for j in range(inp["repetitions"])])
     os.rmdir(tmp)
     msgs = []
     for p, (e, a, h) in seen.items():
@@ -1164,14 +1222,24 @@ def replay(prop: str, payload: dict):
     p0 = procs[0]
     games_differ = any(seen[p][2] != seen[p0][2] for p in procs)
     result_differ = any(not (np.array_equal(seen[p][0], seen[p0][0]) and np.array_equal(seen[p][1], seen[p0][1])) for p in procs)
-    replays = any(len(set(h)) < len(h) for _, _, h in seen.values()) and inp["game_generator"] not in ("factory", "graph_cycle", "xos_one")
+    discrete = ("factory", "graph_cycle", "xos_one", "graph_random", "graph_ws_connected", "graph_internet",
+                "graph_geographical_treshold", "graph_geometric")       # chance coincidences are no replays
+    replays = any(len(set(h)) < len(h) for _, _, h in seen.values()) and inp["game_generator"] not in discrete
+    seed_ignored = False
+    if rerun is not None and rerun[2] != seen[p0][2]:
+        seed_ignored = True
+        msgs.append(f"a second run with the same seed and processes={p0} was evaluated on different hidden games; "
+                    f"gap row 0 = {rerun[0][0].round(4).tolist()}")
+    elif rerun is not None and not (np.array_equal(rerun[0], seen[p0][0]) and np.array_equal(rerun[1], seen[p0][1])):
+        result_differ = True
+        msgs.append(f"a second run with the same seed and processes={p0} returned different matrices")
     if games_differ:
         msgs.append("the hidden games of the repetitions depend on the number of worker processes")
     if replays:
         msgs.append("repetitions replay one another's hidden game")
-    if result_differ and not games_differ:
+    if result_differ and not games_differ and not seed_ignored:
         msgs.append("same hidden games, different matrices: only the solver's own random state depends on the process count")
-    return (games_differ or replays or result_differ), "\n".join(msgs)
+    return (games_differ or replays or result_differ or seed_ignored), "\n".join(msgs)
 
 
 def run(tier: str, budget: Budget, rnd, arg) -> StreamResult:
